@@ -982,8 +982,23 @@ func (w *dmWorld) next() Step {
 	if len(w.socks) > 0 && r.Chance(0.05) {
 		return Step{Op: "reconnect", A: r.Intn(len(w.socks)), B: r.Intn(3), C: r.Intn(2)}
 	}
-	if len(w.socks) > 0 && r.Chance(0.06) {
-		return Step{Op: "mcast", A: r.Intn(len(w.socks)), B: r.Intn(3), C: r.Pick(3, 3, 2, 2)}
+	if len(w.socks) > 0 && r.Chance(0.08) {
+		st := Step{Op: "mcast", A: r.Intn(len(w.socks)), B: r.Intn(3), C: r.Pick(3, 3, 2, 2)}
+		// memberships pile up on few sockets: a socket that is a member already is the likelier one to join
+		// another group, to drop one (any one, not just the latest) - or to be closed, all memberships at once
+		for i, sk := range w.socks {
+			if !sk.closed && len(sk.groups) > 0 && r.Chance(0.6) {
+				st.A = i
+				if len(sk.groups) >= 2 && r.Chance(0.5) {
+					st.C |= 2
+					st.B = r.Intn(len(sk.groups))
+				} else if r.Chance(0.25) {
+					return Step{Op: "close", A: i}
+				}
+				break
+			}
+		}
+		return st
 	}
 	for _, sk := range w.socks {
 		if !sk.closed && len(sk.groups) > 0 && r.Chance(0.15) {
